@@ -91,20 +91,24 @@ CHECKS = {
 # sentences appended to the level text (stages added in the second session; see DESIGN.md 6b)
 AFFINE = " Affine-image stages: the families are also pushed through integer affine maps (shear, general map with offset, orientation-reversing, extreme shear, nearly singular with a 5e5 offset) and the exact oracle is recomputed on the integer image: oblique and nearly parallel edges, crossing points that are not representable, coordinates up to 1e6."
 EXTRA = {
-    "C01": " The named predicates of IntersectionMatrix (is_disjoint .. is_overlaps, matches, from_str) are evaluated on the true matrix of every pair against their documented masks; collections with members of different concrete types in both orders." + AFFINE,
-    "C02": " Collections with members of different concrete types (Triangle/Rect/MultiPolygon next to Polygon, Line next to MultiLineString) in both orders." + AFFINE,
-    "C03": " Also: a constructed family at the edge of a semi-static filter's error bound (all coordinate differences round by ~0.49 ulp so that the two products drift apart; the evidence counts the points on which a filter with bound 1u/2u/2.5u/2.9u x detsum would be wrong), near-collinear i64/i32 triples whose products exceed 2^53/2^24 but fit the type, and point-in-triangle for every vertex order of every 4x4-lattice triangle in f64 and i64. Windows are 192^2 quick / 1536^2 thorough.",
-    "C04": " Also: operands at exact power-of-two scales down to 2^-30 (no absolute size threshold may exist), unary_union of rings written from their least vertex with a repeated closing coordinate." + AFFINE.replace("(shear, general map with offset, orientation-reversing, extreme shear, nearly singular with a 5e5 offset)", "(the three moderate ones)"),
-    "C06": " Scales 2^-30 and 2^40 at the origin (power-of-two scaling is exact: no absolute size threshold may exist).",
-    "C07": AFFINE,
-    "C08": " Also sequences of distinct points of the 5x5 lattice (k<=4, thorough 5) and repetition sequences up to 7 (thorough); minimum_rotated_rect at the exact scales 2^-30, 1, 2^20.",
-    "C09": " Index variants must be the identity for epsilon <= 0; the RDP bound on polygon rings is checked by existence of an admissible embedding; Polygon::simplify_vw must equal LineString::simplify_vw of the ring.",
-    "C10": " Also: polygons with 2 and 3 holes of 3..8 vertices in every order; constrained_outer_triangulation and the deprecated TriangulateSpade entry points; MultiPolygon inputs (member with an optional touching hole x translated member: disjoint, interleaving, vertex-vertex and vertex-edge contact) through constrained Delaunay (tiles the union), stitch (same area and exterior) and the joint monotone subdivision; stitch(earcut) is classified by whether the ear-cut triangulation is conforming." + AFFINE.replace("(shear, general map with offset, orientation-reversing, extreme shear, nearly singular with a 5e5 offset)", "(the three moderate ones)"),
-    "C12": AFFINE.replace("(shear, general map with offset, orientation-reversing, extreme shear, nearly singular with a 5e5 offset)", "(the three moderate ones; queries at the images of the half-step lattice)"),
-    "C13": " The commutation maps include the exact scales 2^-30 and 2^30; simplify_idx / simplify_vw_idx must keep the same positions when the tolerance is scaled with the map; the 'documented centre' of scale/skew/rotate is computed from the traversed coordinates, not from geo's bounding_rect.",
-    "C14": " Also: every ordered triple of a ring alphabet (incl. invalid members) as a three-member MultiPolygon with the member indices of every error; every Line, LineString (<= 4 coordinates), Triangle and Rect of the 3x3 lattice through the concrete type, the Geometry enum, a MultiLineString and a GeometryCollection." + AFFINE,
-    "C17": " Affine images of the families (oblique edges, overlapping R-tree envelopes) prepared in either or both positions, each prepared geometry reused along its row.",
-    "C20": " Also: scalar measures and reductions (area, centroid, geodesic area/perimeter, Chamberlain-Duquette area, lengths in four metric spaces, Hausdorff distance, interior point, hull, closest point, distance, simplify, densify, relate, is_valid, unary_union) over collections of 16/64/257 irregular members under every pool size and hash seed; relate on a fresh PreparedGeometry vs the same call after every other partner has been related to it in both positions.",
+    "C01": " The named predicates of IntersectionMatrix (is_disjoint .. is_overlaps, matches, from_str) are evaluated on the true matrix of every pair against their documented masks; collections with members of different concrete types in both orders." + AFFINE + " Families NEST (strict containment without contact), EMPTYMEM (Multi* with an empty member), LSrun/LNrun; relate<f32> on every fifth pair.",
+    "C02": " Collections with members of different concrete types (Triangle/Rect/MultiPolygon next to Polygon, Line next to MultiLineString) in both orders." + AFFINE + " Families NEST, EMPTYMEM, LSrun/LNrun (collinear runs through the start vertex of a closed line string); the f32 instantiation of intersects/contains/within on every fourth pair.",
+    "C03": " Also: a constructed family at the edge of a semi-static filter's error bound (all coordinate differences round by ~0.49 ulp so that the two products drift apart; the evidence counts the points on which a filter with bound 1u/2u/2.5u/2.9u x detsum would be wrong), near-collinear i64/i32 triples whose products exceed 2^53/2^24 but fit the type, and point-in-triangle for every vertex order of every 4x4-lattice triangle in f64 and i64. Windows are 192^2 quick / 1536^2 thorough. Zero coordinates written as -0.0 in the vertex-order stage.",
+    "C04": " Also: operands at exact power-of-two scales down to 2^-30 (no absolute size threshold may exist), unary_union of rings written from their least vertex with a repeated closing coordinate." + AFFINE.replace("(shear, general map with offset, orientation-reversing, extreme shear, nearly singular with a 5e5 offset)", "(the three moderate ones)") + " Closed loops as clip lines; unary_union of a ring whose least vertex is the tip of a needle (both windings, alone and followed by a square).",
+    "C06": " Scales 2^-30 and 2^40 at the origin (power-of-two scaling is exact: no absolute size threshold may exist). Clockwise Triangle and Polygon leaves; inputs are translated and scaled by the harness's own coordinate mapper (geo's map_coords would re-normalise a Triangle).",
+    "C07": AFFINE + " Exact 2^-30 / 2^30 twins of every third pair; distance<f32> on every second pair; far pairs of 7-8-vertex rings (several R-tree nodes, separations 4..10).",
+    "C08": " Also sequences of distinct points of the 5x5 lattice (k<=4, thorough 5) and repetition sequences up to 7 (thorough); minimum_rotated_rect at the exact scales 2^-30, 1, 2^20. minimum_rotated_rect is also compared with the exact minimum over hull-edge-aligned rectangles; five points at ~1e9 with two of them within +-2 of a chord, every offset and order.",
+    "C09": " Index variants must be the identity for epsilon <= 0; the RDP bound on polygon rings is checked by existence of an admissible embedding; Polygon::simplify_vw must equal LineString::simplify_vw of the ring. MultiPolygon::simplify_vw_preserve member-wise.",
+    "C10": " Also: polygons with 2 and 3 holes of 3..8 vertices in every order; constrained_outer_triangulation and the deprecated TriangulateSpade entry points; MultiPolygon inputs (member with an optional touching hole x translated member: disjoint, interleaving, vertex-vertex and vertex-edge contact) through constrained Delaunay (tiles the union), stitch (same area and exterior) and the joint monotone subdivision; stitch(earcut) is classified by whether the ear-cut triangulation is conforming." + AFFINE.replace("(shear, general map with offset, orientation-reversing, extreme shear, nearly singular with a 5e5 offset)", "(the three moderate ones)") + " The families at the exact scales 2^-8 and 2^-12 (vertex spacing just above the documented Delaunay snap radius).",
+    "C12": AFFINE.replace("(shear, general map with offset, orientation-reversing, extreme shear, nearly singular with a 5e5 offset)", "(the three moderate ones; queries at the images of the half-step lattice)") + " Point-only geometries at the ends of the floating-point range (2^+-520, f32 2^+-70).",
+    "C13": " The commutation maps include the exact scales 2^-30 and 2^30; simplify_idx / simplify_vw_idx must keep the same positions when the tolerance is scaled with the map; the 'documented centre' of scale/skew/rotate is computed from the traversed coordinates, not from geo's bounding_rect. scaled/translated/rotated/skewed against compose(constructor) for all 729 matrices (f64, i64).",
+    "C14": " Also: every ordered triple of a ring alphabet (incl. invalid members) as a three-member MultiPolygon with the member indices of every error; every Line, LineString (<= 4 coordinates), Triangle and Rect of the 3x3 lattice through the concrete type, the Geometry enum, a MultiLineString and a GeometryCollection." + AFFINE + " The two-hole family with an EMPTY interior ring before/between/after the holes; thin Triangles within a few ulps of collinear (f64) and integer-cornered Triangle<f32> at 2^13 against the exact determinant.",
+    "C17": " Affine images of the families (oblique edges, overlapping R-tree envelopes) prepared in either or both positions, each prepared geometry reused along its row. Degenerate and empty geometries of every type (zero-length Line, flat Rect, collinear Triangle, one-coordinate LineString, empty members).",
+    "C20": " Also: scalar measures and reductions (area, centroid, geodesic area/perimeter, Chamberlain-Duquette area, lengths in four metric spaces, Hausdorff distance, interior point, hull, closest point, distance, simplify, densify, relate, is_valid, unary_union) over collections of 16/64/257 irregular members under every pool size and hash seed; relate on a fresh PreparedGeometry vs the same call after every other partner has been related to it in both positions. validation_errors / check_validation of a MultiPolygon with one member conflicting with eight later ones, of a polygon with six defective holes and of a collection; a prepared outlier detector fresh vs after other k values; the outlier ensembles.",
+    "C05": " Collections of members with mixed winding (polygon, reversed polygon, clockwise Triangle, Rect, nested): signed areas add with their signs, unsigned areas add up; zero coordinates written as -0.0.",
+    "C15": " Exact 2^-30 / 2^30 twins of interpolation and locate on every fourth case.",
+    "C18": " Rect conversions with corners of very different magnitude and sign (min + (max - min) != max) and Rect<i32> over the full range.",
+    "C19": " Every other Rect leaf has corners of very different magnitude and sign.",
 }
 
 NOT_YET = "check not built yet in this round (planned: bounded exhaustive exploration, see DESIGN.md §4)"
